@@ -98,6 +98,7 @@ thread_local std::unique_ptr<qsbr_per_thread>
 [[nodiscard]] qsbr_state::type
 qsbr_state::atomic_fetch_dec_threads_in_previous_epoch(
     std::atomic<qsbr_state::type>& word) noexcept {
+  UNODB_DETAIL_VERIF_POINT(UNODB_DETAIL_VERIF_QSBR_STATE_RMW, &word);
   const auto old_word = word.fetch_sub(1, std::memory_order_acq_rel);
 
   UNODB_DETAIL_ASSERT(get_threads_in_previous_epoch(old_word) > 0);
@@ -171,13 +172,22 @@ void add_to_orphan_list(
   auto* const list_node_ptr = orphan_list_node.release();
 
   list_node_ptr->requests = std::move(requests);
+  UNODB_DETAIL_VERIF_POINT(UNODB_DETAIL_VERIF_QSBR_ORPHAN_LOAD, &orphan_list);
   list_node_ptr->next = orphan_list.load(std::memory_order_acquire);
 
   while (true) {
+#ifdef UNODB_DETAIL_VERIF_HOOKS
+    UNODB_DETAIL_VERIF_POINT(UNODB_DETAIL_VERIF_QSBR_ORPHAN_RMW, &orphan_list);
+    if (UNODB_DETAIL_VERIF_BUGGIFY(6)) {
+      list_node_ptr->next = orphan_list.load(std::memory_order_acquire);
+      continue;
+    }
+#endif
     if (UNODB_DETAIL_LIKELY(orphan_list.compare_exchange_weak(
             list_node_ptr->next, list_node_ptr, std::memory_order_acq_rel,
             std::memory_order_acquire)))
       return;
+    UNODB_DETAIL_VERIF_PROBE(UNODB_DETAIL_VERIF_PROBE_ORPHAN_ADD_CAS_RETRY);
   }
 }
 
@@ -190,6 +200,7 @@ void add_to_orphan_list(
 [[nodiscard]] detail::dealloc_vector_list_node* take_orphan_list(
     std::atomic<detail::dealloc_vector_list_node*>& orphan_list
     UNODB_DETAIL_LIFETIMEBOUND) noexcept {
+  UNODB_DETAIL_VERIF_POINT(UNODB_DETAIL_VERIF_QSBR_ORPHAN_RMW, &orphan_list);
   return orphan_list.exchange(nullptr, std::memory_order_acq_rel);
 }
 
@@ -246,12 +257,20 @@ qsbr_epoch qsbr::register_thread() noexcept {
       const auto new_state =
           qsbr_state::inc_thread_count_and_threads_in_previous_epoch(old_state);
 
+#ifdef UNODB_DETAIL_VERIF_HOOKS
+      UNODB_DETAIL_VERIF_POINT(UNODB_DETAIL_VERIF_QSBR_STATE_RMW, &state);
+      if (UNODB_DETAIL_VERIF_BUGGIFY(1)) {
+        old_state = state.load(std::memory_order_acquire);
+        continue;
+      }
+#endif
       if (UNODB_DETAIL_LIKELY(state.compare_exchange_weak(
               old_state, new_state, std::memory_order_acq_rel,
               std::memory_order_acquire)))
         return old_epoch;
 
       // LCOV_EXCL_START
+      UNODB_DETAIL_VERIF_PROBE(UNODB_DETAIL_VERIF_PROBE_REGISTER_CAS_RETRY);
       continue;
     }
 
@@ -264,6 +283,15 @@ qsbr_epoch qsbr::register_thread() noexcept {
     // Epoch change in progress - try to bump the thread count only
     const auto new_state = qsbr_state::inc_thread_count(old_state);
 
+    UNODB_DETAIL_VERIF_PROBE(
+        UNODB_DETAIL_VERIF_PROBE_REGISTER_DURING_EPOCH_CHANGE);
+#ifdef UNODB_DETAIL_VERIF_HOOKS
+    UNODB_DETAIL_VERIF_POINT(UNODB_DETAIL_VERIF_QSBR_STATE_RMW, &state);
+    if (UNODB_DETAIL_VERIF_BUGGIFY(2)) {
+      old_state = state.load(std::memory_order_acquire);
+      continue;
+    }
+#endif
     if (UNODB_DETAIL_LIKELY(state.compare_exchange_weak(
             old_state, new_state, std::memory_order_acq_rel,
             std::memory_order_acquire))) {
@@ -275,6 +303,8 @@ qsbr_epoch qsbr::register_thread() noexcept {
         old_state = get_state();
         const auto new_epoch = qsbr_state::get_epoch(old_state);
         if (new_epoch != old_epoch) return new_epoch;
+        UNODB_DETAIL_VERIF_PROBE(UNODB_DETAIL_VERIF_PROBE_REGISTER_WAITED);
+        UNODB_DETAIL_VERIF_POINT(UNODB_DETAIL_VERIF_SPIN, &state);
       }
     }
   }
@@ -290,6 +320,7 @@ void qsbr::unregister_thread(std::uint64_t quiescent_states_since_epoch_change,
 #endif
 {
   bool epoch_change_prepared = false;
+  UNODB_DETAIL_VERIF_POINT(UNODB_DETAIL_VERIF_QSBR_STATE_LOAD, &state);
   auto old_state = state.load(std::memory_order_acquire);
 
   while (true) {
@@ -302,6 +333,15 @@ void qsbr::unregister_thread(std::uint64_t quiescent_states_since_epoch_change,
 
       // Epoch change in progress - try to decrement the thread count only
       const auto new_state = qsbr_state::dec_thread_count(old_state);
+      UNODB_DETAIL_VERIF_PROBE(
+          UNODB_DETAIL_VERIF_PROBE_UNREGISTER_DURING_EPOCH_CHANGE);
+#ifdef UNODB_DETAIL_VERIF_HOOKS
+      UNODB_DETAIL_VERIF_POINT(UNODB_DETAIL_VERIF_QSBR_STATE_RMW, &state);
+      if (UNODB_DETAIL_VERIF_BUGGIFY(3)) {
+        old_state = state.load(std::memory_order_acquire);
+        continue;
+      }
+#endif
       if (UNODB_DETAIL_LIKELY(state.compare_exchange_weak(
               old_state, new_state, std::memory_order_acq_rel,
               std::memory_order_acquire))) {
@@ -343,6 +383,17 @@ void qsbr::unregister_thread(std::uint64_t quiescent_states_since_epoch_change,
       }
     }
 
+#ifdef UNODB_DETAIL_VERIF_HOOKS
+    if (epoch_change_prepared && !advance_epoch)
+      UNODB_DETAIL_VERIF_PROBE(
+          UNODB_DETAIL_VERIF_PROBE_UNREGISTER_PREPARED_NOT_ADVANCING);
+    UNODB_DETAIL_VERIF_POINT(UNODB_DETAIL_VERIF_QSBR_STATE_RMW, &state);
+    if (UNODB_DETAIL_VERIF_BUGGIFY(4)) {
+      old_state = state.load(std::memory_order_acquire);
+      UNODB_DETAIL_VERIF_PROBE(UNODB_DETAIL_VERIF_PROBE_UNREGISTER_CAS_RETRY);
+      continue;
+    }
+#endif
     if (UNODB_DETAIL_LIKELY(state.compare_exchange_weak(
             old_state, new_state, std::memory_order_acq_rel,
             std::memory_order_acquire))) {
@@ -367,6 +418,7 @@ void qsbr::unregister_thread(std::uint64_t quiescent_states_since_epoch_change,
 
       return;
     }
+    UNODB_DETAIL_VERIF_PROBE(UNODB_DETAIL_VERIF_PROBE_UNREGISTER_CAS_RETRY);
   }
 }
 
@@ -479,6 +531,8 @@ void qsbr::epoch_change_barrier_and_handle_orphans(
 
   if (UNODB_DETAIL_LIKELY(!single_thread_mode)) {
     detail::dealloc_vector_list_node* new_previous_requests = nullptr;
+    UNODB_DETAIL_VERIF_POINT(UNODB_DETAIL_VERIF_QSBR_ORPHAN_RMW,
+                             &orphaned_previous_interval_dealloc_requests);
     if (UNODB_DETAIL_UNLIKELY(
             !orphaned_previous_interval_dealloc_requests
                  .compare_exchange_strong(
@@ -489,8 +543,11 @@ void qsbr::epoch_change_barrier_and_handle_orphans(
       // everybody else add at the list head. The list should be short in
       // general case as not too many threads could have quit since we took the
       // previous batch.
+      UNODB_DETAIL_VERIF_PROBE(UNODB_DETAIL_VERIF_PROBE_ORPHAN_TAIL_APPEND);
       while (new_previous_requests->next != nullptr)
         new_previous_requests = new_previous_requests->next;
+      UNODB_DETAIL_VERIF_POINT(UNODB_DETAIL_VERIF_QSBR_ORPHAN_LINK,
+                               &new_previous_requests->next);
       new_previous_requests->next = orphaned_current_requests;
     }
   } else {
@@ -502,12 +559,21 @@ qsbr_epoch qsbr::change_epoch(qsbr_epoch current_global_epoch,
                               bool single_thread_mode) noexcept {
   epoch_change_barrier_and_handle_orphans(single_thread_mode);
 
+  UNODB_DETAIL_VERIF_POINT(UNODB_DETAIL_VERIF_QSBR_STATE_LOAD, &state);
   auto old_state = state.load(std::memory_order_acquire);
   while (true) {
     UNODB_DETAIL_ASSERT(current_global_epoch ==
                         qsbr_state::get_epoch(old_state));
 
     const auto new_state = qsbr_state::inc_epoch_reset_previous(old_state);
+#ifdef UNODB_DETAIL_VERIF_HOOKS
+    UNODB_DETAIL_VERIF_POINT(UNODB_DETAIL_VERIF_QSBR_STATE_RMW, &state);
+    if (UNODB_DETAIL_VERIF_BUGGIFY(5)) {
+      old_state = state.load(std::memory_order_acquire);
+      UNODB_DETAIL_VERIF_PROBE(UNODB_DETAIL_VERIF_PROBE_CHANGE_EPOCH_CAS_RETRY);
+      continue;
+    }
+#endif
     if (UNODB_DETAIL_LIKELY(state.compare_exchange_weak(
             old_state, new_state, std::memory_order_acq_rel,
             std::memory_order_acquire))) {
@@ -519,6 +585,7 @@ qsbr_epoch qsbr::change_epoch(qsbr_epoch current_global_epoch,
 #endif  // UNODB_DETAIL_WITH_STATS
       return current_global_epoch.advance();
     }
+    UNODB_DETAIL_VERIF_PROBE(UNODB_DETAIL_VERIF_PROBE_CHANGE_EPOCH_CAS_RETRY);
 
     // Nobody else can change epoch nor threads in the previous epoch, only
     // allowed failures are thread count change and spurious. The next loop
